@@ -705,7 +705,7 @@ func ConnectBlock(b *wire.Block, parent *Index, view UTXO, p *Params, verify Scr
 				return errors.New("bad-txns-accumulated-fee-outofrange")
 			}
 			// BIP68
-			if csv && int32(tx.Version) >= 2 {
+			if csv && tx.Version >= 2 { // Core compares the version as unsigned here
 				minHeight, minTime := int64(-1), int64(-1)
 				for j, in := range tx.In {
 					if in.Sequence&SeqDisableFlag != 0 {
